@@ -386,8 +386,9 @@ func VerifControllerWorld(layout, nsvc, eventKind, failures int) {
 		api.objs[s.name] = vhBuildService(s)
 		if s.recIP != nil {
 			// the recorded-pool annotation may be missing (older release, stripped by a tool); it matters
-			// only together with a pool request, so it is varied only then
-			if !(s.reqPool != "" && vr.Bool()) {
+			// together with a pool request and when status writes can fail (the normalising write), so it is
+			// varied only then
+			if !((s.reqPool != "" || failures > 0) && vr.Bool()) {
 				api.objs[s.name].Annotations[AnnotationIPAllocateFromPool] = vhPoolOf(ps, s.recIP)
 			}
 		}
@@ -536,8 +537,9 @@ func VerifControllerCrash(layout, nsvc, failures int) {
 		api.objs[s.name] = vhBuildService(s)
 		if s.recIP != nil {
 			// the recorded-pool annotation may be missing (older release, stripped by a tool); it matters
-			// only together with a pool request, so it is varied only then
-			if !(s.reqPool != "" && vr.Bool()) {
+			// together with a pool request and when status writes can fail (the normalising write), so it is
+			// varied only then
+			if !((s.reqPool != "" || failures > 0) && vr.Bool()) {
 				api.objs[s.name].Annotations[AnnotationIPAllocateFromPool] = vhPoolOf(ps, s.recIP)
 			}
 		}
